@@ -171,22 +171,27 @@ def _make_sim(spec, seed):
         spec["K"] = 5  # cubic B-splines need at least 4 functions (3 gives NaN basis values: 0 segments)
     if spec.get("fam") == "bsplines" and k in ("klmixed", "kl2d"):
         spec["fam"] = "wiener"  # two cubic B-spline functions give NaN basis values
+    # documented keyword options of the constructor, in combination: `is_normalized` (through kwargs_basis),
+    # `argvals` given or left to the default grid
+    kwb = {"is_normalized": True} if spec.get("norm") else {}
+    noargs = bool(spec.get("noargs"))
     if k == "kl":
         fam = spec["fam"]
-        return KarhunenLoeve(n_functions=spec["K"], basis_name=fam, argvals=DenseArgvals({"input_dim_0": _grid_for(fam, m)}), random_state=seed)
+        return KarhunenLoeve(n_functions=spec["K"], basis_name=fam, argvals=None if noargs else DenseArgvals({"input_dim_0": _grid_for(fam, m)}), random_state=seed, **kwb)
     if k == "kl2d":
         f1, f2 = spec["fam"], spec["fam2"]
         return KarhunenLoeve(n_functions=(2, 2), basis_name=(f1, f2),
-                             argvals=DenseArgvals({"input_dim_0": _grid_for(f1, m), "input_dim_1": _grid_for(f2, 3)}), random_state=seed)
+                             argvals=None if noargs else DenseArgvals({"input_dim_0": _grid_for(f1, m), "input_dim_1": _grid_for(f2, 3)}), random_state=seed, **kwb)
     if k == "klmulti":
         f1, f2 = spec["fam"], spec["fam2"]
         return KarhunenLoeve(n_functions=[spec["K"], spec["K"]], basis_name=[f1, f2],
-                             argvals=[DenseArgvals({"input_dim_0": _grid_for(f1, m)}), DenseArgvals({"input_dim_0": _grid_for(f2, m + 2)})], random_state=seed)
+                             argvals=None if noargs else [DenseArgvals({"input_dim_0": _grid_for(f1, m)}), DenseArgvals({"input_dim_0": _grid_for(f2, m + 2)})],
+                             random_state=seed, **kwb)
     if k == "klmixed":
         f1 = spec["fam"]
         return KarhunenLoeve(n_functions=[(2, 2), 4], basis_name=[("fourier", "fourier"), f1],
-                             argvals=[DenseArgvals({"input_dim_0": np.linspace(0, 1, m), "input_dim_1": np.linspace(0, 1, 3)}),
-                                      DenseArgvals({"input_dim_0": _grid_for(f1, m)})], random_state=seed)
+                             argvals=None if noargs else [DenseArgvals({"input_dim_0": np.linspace(0, 1, m), "input_dim_1": np.linspace(0, 1, 3)}),
+                                                          DenseArgvals({"input_dim_0": _grid_for(f1, m)})], random_state=seed, **kwb)
     if k in ("bms", "bmg", "bmf"):
         return Brownian(name={"bms": "standard", "bmg": "geometric", "bmf": "fractional"}[k], random_state=seed)
     if k == "ds":
@@ -274,21 +279,34 @@ def gen_cases(rng: Rng, tier):
     for i in range(ne):
         yield dict(kind="eig", name=names[i % 6] if i < ne - 3 else rng.choice(names + ["unknown"]), n=rng.choice([1, 1, 2, 3, 5, 8, 12]) if i % 9 else rng.choice([0, -1]),
                    via_new=i % 2 == 0)
-    for _ in range(nk):
-        shape = rng.choice(["kl", "kl", "kl2d", "klmulti", "klmixed"])
-        spec = dict(kind=shape, fam=rng.choice(KL_FAMILIES), fam2=rng.choice(["fourier", "legendre", "wiener"]), K=rng.choice([1, 2, 3, 5]) if shape != "kl" else rng.choice([2, 3, 5]), m=rng.randint(3, 8))
-        n_obs, kc = rng.choice([1, 2, 3, 4, 7]), rng.randint(1, 4)
+    # option interactions of KarhunenLoeve.__init__ / new, the same grid every run:
+    # shape x is_normalized x (clusters, centers, clusters_std as name / array) x argvals given or default
+    grid = [(shape, norm, opt, False) for shape in ("kl", "kl2d", "klmulti", "klmixed") for norm in (False, True)
+            for opt in ("default", "centers", "cstd_name", "name_centers", "both")]
+    grid += [(shape, norm, "name_centers", True) for shape in ("kl", "kl2d", "klmulti", "klmixed") for norm in (False, True)]
+    for gi in range(len(grid) + nk):
+        if gi < len(grid):
+            shape, norm, opt, noargs = grid[gi]
+        else:
+            shape, norm, noargs = rng.choice(["kl", "kl", "kl2d", "klmulti", "klmixed"]), rng.random() < 0.3, rng.random() < 0.15
+            opt = rng.choice(["default", "centers", "cstd_name", "cstd_array", "both", "name_centers"])
+        spec = dict(kind=shape, fam=rng.choice(KL_FAMILIES), fam2=rng.choice(["fourier", "legendre", "wiener"]), K=rng.choice([1, 2, 3, 5]) if shape != "kl" else rng.choice([2, 3, 5]), m=rng.randint(3, 8),
+                    norm=norm, noargs=noargs)
+        n_obs, kc = rng.choice([1, 2, 3, 4, 7]), (rng.randint(1, 4) if gi >= len(grid) or opt == "default" else rng.randint(2, 4))
         if spec["fam"] == "bsplines" and shape in ("kl", "klmulti"):
             spec["K"] = 5
+        if spec["fam"] == "bsplines" and shape in ("klmixed", "kl2d"):
+            spec["fam"] = "wiener"
         nf = {"kl": spec["K"], "kl2d": 4, "klmulti": spec["K"], "klmixed": 4}[shape]
-        opt = rng.choice(["default", "centers", "cstd_name", "cstd_array", "both"])
         c = dict(kind="kl", spec=spec, n_obs=n_obs, n_clusters=kc, opt=opt, seeded=rng.random() < 0.7,
                  post=rng.choice([[], ["sparse"], ["comb"], ["noise", "sparse"], ["comb", "noise"], ["sparse", "comb"]]),
                  Z=[[rs(x) for x in rng.dyadics(nf, -2, 2, 2)] for _ in range(n_obs)])
-        if opt in ("centers", "both"):
+        if opt in ("centers", "both", "name_centers"):
             c["centers"] = [[rs(x) for x in rng.dyadics(kc, -3, 3, 1)] for _ in range(nf)]
-        if opt == "cstd_name":
-            c["cstd"] = rng.choice(["linear", "quadratic", "inverse", "exponential"])
+            if kc >= 2:
+                c["centers"][0][0], c["centers"][0][1] = "1", "-2"   # the centers differ between clusters
+        if opt in ("cstd_name", "name_centers"):
+            c["cstd"] = rng.choice(["linear", "quadratic", "inverse", "exponential", "sqrt", "wiener"])
         if opt in ("cstd_array", "both"):
             c["cstd"] = [[rs(rng.choice([Fraction(1, 4), Fraction(1), Fraction(4), Fraction(9, 4)])) for _ in range(kc)] for _ in range(nf)]
         yield c
@@ -508,8 +526,17 @@ def _impl_kl(case):
     multi = isinstance(sim.data, MultivariateFunctionalData)
     comps = list(sim.data.data) if multi else [sim.data]
     bcomps = list(sim.data_basis.data) if multi else [sim.data_basis]
+    from FDApy.simulation.karhunen import _simulate_eigenvalues
+
+    nfeat = len(case["Z"][0])
+    if isinstance(case.get("cstd"), str):
+        eig_want = [float(x) for x in _simulate_eigenvalues(case["cstd"], nfeat)]
+    elif "cstd" in case:
+        eig_want = [float(F(r[0])) for r in case["cstd"]]
+    else:
+        eig_want = [1.0] * nfeat
     out = dict(status="ok", calls=stub.calls, labels=[int(x) for x in sim.labels], glob_changed=post["glob_changed"] if post["ran"] else g0 != _gstate(), post=post["ran"],
-               eigenvalues=[float(x) for x in np.asarray(sim.eigenvalues).ravel()], comps=[])
+               eig_want=eig_want, eigenvalues=[float(x) for x in np.asarray(sim.eigenvalues).ravel()], comps=[])
     for c, b in zip(comps, bcomps):
         vals = np.asarray(c.values, dtype=float)
         basis = np.asarray(b.basis.values, dtype=float)
@@ -1084,6 +1111,10 @@ def oracle(case, impl):
         ev = impl["eigenvalues"]
         if isinstance(case.get("cstd"), str) and (any(not (x > 0) for x in ev) or any(y > x for x, y in zip(ev, ev[1:]))):
             bad("eigenvalues", "KarhunenLoeve.new", f"eigenvalues {ev}")
+        if ev != impl["eig_want"]:
+            what = f"the named sequence `{case['cstd']}`" if isinstance(case.get("cstd"), str) else ("the first column of `clusters_std`" if "cstd" in case else "ones")
+            bad("eigenvalues", "KarhunenLoeve.new", f"simulator.eigenvalues {ev} are not {what} {impl['eig_want']} (options: n_clusters={k}, centers={'given' if 'centers' in case else 'default'})",
+                ["option_interaction"])
         return vs
     if kind == "bm":
         init = 0.0 if (case["default_init"] and case["name"] == "standard") else (1.0 if case["default_init"] else float(F(case["init"])))
@@ -1188,7 +1219,8 @@ def classify(case, impl):
             if call["op"] == "new":
                 tags.append("clusters:" + str(call["n_clusters"]))
     elif case["kind"] == "kl":
-        tags += ["shape:" + case["spec"]["kind"], "fam:" + case["spec"]["fam"], "opt:" + case["opt"], "clusters:" + str(case["n_clusters"])]
+        tags += ["shape:" + case["spec"]["kind"], "fam:" + case["spec"]["fam"], "opt:" + case["opt"], "clusters:" + str(case["n_clusters"]),
+                 "is_normalized:" + str(bool(case["spec"].get("norm"))), "argvals:" + ("default" if case["spec"].get("noargs") else "given")]
     elif case["kind"] == "bm":
         tags += ["bm:" + case["name"], "status:" + impl["status"].split(":")[0], "grid_dtype:" + case.get("gdtype", "float64")]
     elif case["kind"] == "grid":
